@@ -6,8 +6,6 @@ import (
 	"fmt"
 	"time"
 
-	"net/http/httptest"
-
 	"github.com/zeromicro/go-zero/core/breaker"
 
 	"verifsim/simrt"
@@ -99,9 +97,11 @@ type callRec struct {
 
 	// second layer
 	servedBy        *ident
-	rec             *httptest.ResponseRecorder
+	rec             *restRecorder // what the client of a REST call gets (resthdr_test.go)
 	wantCode        int
 	wantBody        string
+	wantInfos       []int // informational (1xx) responses the handler sent before its final status
+	noFlusher       bool  // the writer handed to the handler cannot Flush
 	l2err           error // what the wrapped handler / invoker / command returned
 	wantUnavailable bool
 	ctxChanged      bool
@@ -136,6 +136,7 @@ type world struct {
 	// second layer
 	cur        map[int]*callRec // engine task id -> call in flight on that task
 	opensClass string
+	lawSuffix  string // REST: appended to the class admission-law once a handler of this identity has made superfluous WriteHeader calls
 
 	// first use through the name registry (firstuse_test.go): the harness does not create the
 	// breaker; it comes into being with the first lookups of the name, made by several tasks
@@ -391,6 +392,7 @@ func (w *world) call(p *plan) *callRec {
 	}
 	doneAtRet := ctx != nil && ctx.Err() != nil
 	w.classify(c, ctx, doneAtInv, doneAtRet)
+	w.probeInFlight(c)
 	r.Ev("return", int64(c.id), int64(c.class), int64(c.ev))
 	if r.Tracing() {
 		r.Logf("call %d entry=%s via=%d ctx=%d outcome=%s dur=%v -> class=%d ev=%d err=%v panicked=%v req=%d fb=%d inv=%v ret=%v",
@@ -566,7 +568,7 @@ func (w *world) settle() {
 		probeDue := havePrev && c.inv.t-lMax > probeGap
 		if c.class == clRejected {
 			if !lawHolds(bd.nMax, bd.aMin) {
-				r.Fail("admission-law", "call %d (%s) was rejected at %v although the preceding window holds at most %d non-accepted and at least %d accepted calls (needs non-accepted > 5 + 10%% accepted)",
+				r.Fail("admission-law"+w.lawSuffix, "call %d (%s) was rejected at %v although the preceding window holds at most %d non-accepted and at least %d accepted calls (needs non-accepted > 5 + 10%% accepted)",
 					c.id, entryNames[c.p.entry], c.inv.t, bd.nMax, bd.aMin)
 				return
 			}
